@@ -173,3 +173,33 @@ Definition chunk_ok (c : chunk) : bool :=
   && match ck_spans c with [] => false | _ => true end
   && forallb (fun p => existsb (N.eqb (fst p)) (prefix_sums (ck_lens c))
                        && existsb (N.eqb (snd p)) (prefix_sums (ck_lens c))) (ck_spans c).
+
+(* ---------------------------------------------------------------- tiny-skia-path Transform::concat *)
+(* Products of finite transforms as usvg stores them (abs_transform = parent.abs_transform x transform;
+   `use`: transform x translate(x, y) x viewBox mapping; resolved gradient: definition transform x bbox
+   mapping).  `mul_add_mul` works in f64 and casts once; the no-skew branch multiplies and adds in f32. *)
+Local Open Scope Q_scope.
+Definition ts_is_identity (t : ts) : bool :=
+  Qeqb (t_sx t) 1 && Qeqb (t_ky t) 0 && Qeqb (t_kx t) 0 && Qeqb (t_sy t) 1 && Qeqb (t_tx t) 0 && Qeqb (t_ty t) 0.
+Definition ts_has_skew (t : ts) : bool := negb (Qeqb (t_kx t) 0) || negb (Qeqb (t_ky t) 0).
+Definition ts_fin (t : ts) : list xq := [Fin (t_sx t); Fin (t_ky t); Fin (t_kx t); Fin (t_sy t); Fin (t_tx t); Fin (t_ty t)].
+Definition mul_add_mul (a b c d : Q) : xq := xq_norm (a * b + c * d).
+Definition xts_concat (a b : ts) : list xq :=
+  if ts_is_identity a then ts_fin b
+  else if ts_is_identity b then ts_fin a
+  else if negb (ts_has_skew a) && negb (ts_has_skew b) then
+    [xq_norm (t_sx a * t_sx b); Fin 0; Fin 0; xq_norm (t_sy a * t_sy b);
+     xq_add (xq_norm (t_sx a * t_tx b)) (Fin (t_tx a)); xq_add (xq_norm (t_sy a * t_ty b)) (Fin (t_ty a))]
+  else
+    [mul_add_mul (t_sx a) (t_sx b) (t_kx a) (t_ky b); mul_add_mul (t_ky a) (t_sx b) (t_sy a) (t_ky b);
+     mul_add_mul (t_sx a) (t_kx b) (t_kx a) (t_sy b); mul_add_mul (t_ky a) (t_kx b) (t_sy a) (t_sy b);
+     xq_add (mul_add_mul (t_sx a) (t_tx b) (t_kx a) (t_ty b)) (Fin (t_tx a));
+     xq_add (mul_add_mul (t_ky a) (t_tx b) (t_sy a) (t_ty b)) (Fin (t_ty a))].
+(* magnitude of a transform and the known class: the product may leave the f32 range *)
+Definition Qabs_m (a : Q) : Q := if Qleb 0 a then a else - a.
+Definition Qmax_m (a b : Q) : Q := if Qleb a b then b else a.
+Definition ts_mag (t : ts) : Q :=
+  Qmax_m (Qabs_m (t_sx t)) (Qmax_m (Qabs_m (t_ky t)) (Qmax_m (Qabs_m (t_kx t))
+    (Qmax_m (Qabs_m (t_sy t)) (Qmax_m (Qabs_m (t_tx t)) (Qabs_m (t_ty t)))))).
+Definition KnownClass_product_overflow (a b : ts) : bool :=
+  negb (Qleb (2 * ts_mag a * ts_mag b + ts_mag a) F32_MAX).
